@@ -29,7 +29,10 @@ OD = collections.OrderedDict
 V3_HEADER = '%YAML 1.2\n--- !<tag:barectf.org,2020/3/config>\n'
 
 CTF_KEYWORDS = {'align', 'callsite', 'clock', 'enum', 'env', 'event', 'floating_point', 'integer', 'stream',
-                'string', 'struct', 'trace', 'typealias', 'typedef', 'variant'}
+                'string', 'struct', 'trace', 'typealias', 'typedef', 'variant',
+                # C type specifiers, reserved too since /repo c9ab8b8
+                'const', 'char', 'double', 'float', 'int', 'long', 'short', 'signed', 'unsigned', 'void',
+                '_Bool', '_Complex', '_Imaginary'}
 RESERVED = {'packet_size', 'content_size', 'timestamp_begin', 'timestamp_end', 'events_discarded', 'packet_seq_num',
             'magic', 'uuid', 'stream_id', 'stream_instance_id', 'id', 'timestamp'}
 
@@ -450,13 +453,16 @@ class Printer:
             f = OD(pre or [])
             for name, ft in fields:
                 f[name] = self.ft(ft)
-            if f or self.pres.choose(('empty', id(fields)), [True, False]):
+            how = True if f else self.pres.choose(('empty', id(fields)), [True, False, None])
+            if how is None:
+                n['fields'] = None                 # `fields: null` = no member (fix 616725c of /repo)
+            elif how:
                 n['fields'] = f
         else:
             m = []
             for name, ft in fields:
                 m.append(OD([(name, self.member(ft))]))
-            if m or self.pres.choose(('empty', id(fields)), [True, False]):
+            if m or self.pres.choose(('empty', id(fields)), [True, False, None]):
                 n['members'] = m
         return n
 
@@ -629,6 +635,12 @@ def print_v2(cfg, pres, srng, order_rng):
         if cfg['ph_min_align'] is not None:
             n['min-align'] = cfg['ph_min_align']
         n['fields'] = OD(pre)
+        if not pre:
+            how = order_rng.choice(['empty', 'null', 'absent'])
+            if how == 'null':
+                n['fields'] = None
+            elif how == 'absent':
+                del n['fields']
         trace['packet-header-type'] = n
     meta['trace'] = trace
     if cfg['default_stream'] is not None and cfg['default_via'] == '$default-stream':
@@ -655,7 +667,14 @@ def print_v2(cfg, pres, srng, order_rng):
         pcn['fields'] = OD((k, P.ft(v)) for k, v in merged)
         s['packet-context-type'] = pcn
         if st['eh'] is not None:
-            s['event-header-type'] = OD([('class', 'struct'), ('fields', OD((k, P.ft(v)) for k, v in shuffled(order_rng, st['eh'].items())))])
+            ehn = OD([('class', 'struct'), ('fields', OD((k, P.ft(v)) for k, v in shuffled(order_rng, st['eh'].items())))])
+            if not st['eh']:
+                how = order_rng.choice(['empty', 'null', 'absent'])     # all three mean "no event header member"
+                if how == 'null':
+                    ehn['fields'] = None
+                elif how == 'absent':
+                    del ehn['fields']
+            s['event-header-type'] = ehn
         if st['ec'] is not None:
             s['event-context-type'] = P.ft(st['ec'])
         s['events'] = OD((en, P.event(ev)) for en, ev in st['events'].items())
